@@ -41,11 +41,13 @@ MIN_COUNTERS = {
               'id_mentions_checked': 50_000, 'ledger_checks': 50_000,
               'ok_blocks_checked': 1500, 'failed_blocks_checked': 1000,
               'rt_histories': 100, 'multi_client_histories': 150,
+              'sync_blocks_checked': 150, 'sync_points_observed': 150,
               'oracle_selftests': 1},
     'thorough': {'ops_compared': 1_500_000, 'messages_grammar_checked': 1_500_000,
                  'id_mentions_checked': 1_500_000, 'ledger_checks': 1_500_000,
                  'ok_blocks_checked': 30000, 'failed_blocks_checked': 20000,
                  'rt_histories': 1000, 'multi_client_histories': 5000,
+                 'sync_blocks_checked': 3000, 'sync_points_observed': 3000,
                  'oracle_selftests': 1},
 }
 
@@ -67,6 +69,11 @@ def plan(tier, seed):
     n = 2000 if quick else 60_000
     for p, (f, k) in enumerate(split(n, 2)):
         shards.append({'name': f'rt{p}', 'mode': 'rt', 'kind': 'rt',
+                       'first_case': f, 'n': k, 'secs': secs,
+                       'hard_timeout': secs + 120})
+    n = 1600 if quick else 60_000
+    for p, (f, k) in enumerate(split(n, 2 if quick else 3)):
+        shards.append({'name': f'rtsync{p}', 'mode': 'rt', 'kind': 'rtsync',
                        'first_case': f, 'n': k, 'secs': secs,
                        'hard_timeout': secs + 120})
     return shards
@@ -92,7 +99,7 @@ def run_shard(spec, acc):
     m.Buffer, m.ControlBus, m.AudioBus = buffer.Buffer, bus.ControlBus, bus.AudioBus
 
     kind = spec['shard']['kind']
-    mode = 'rt' if kind == 'rt' else 'nrt'
+    mode = 'rt' if kind in ('rt', 'rtsync') else 'nrt'
     multi = kind == 'multi'
     if multi:
         server = Server('vf17', NetAddr('127.0.0.1', 57917), ServerOptions())
@@ -102,6 +109,10 @@ def run_shard(spec, acc):
     cap = c17_exec.Capture(mode, main)
     ledger = c17_exec.Ledger()
     plain_addr = server.addr
+
+    if kind == 'rtsync':
+        run_sync_shard(spec, acc, m, main, server, cap, ledger)
+        return
 
     for i in iter_cases(spec):
         rng = case_rng(spec['seed'], 'C17', kind, i)
@@ -166,3 +177,59 @@ def run_shard(spec, acc):
             acc.count('histories_with_dict_sequence_value')
         if acc.want_sample() and 4 <= len(flat) <= 9 and special and frees:
             acc.sample({'case': i, 'kind': kind, 'program': prog})
+
+
+def run_sync_shard(spec, acc, m, main, server, cap, ledger):
+    """RT: routines on a clock run bind() blocks with 0-3 `yield from
+    server.sync()` points; the `_send` recorder plays the server and answers
+    every /sync with /synced through the interface's receive path."""
+    from vf import osc, c17_gen, c17_exec
+    from sc3.base import clock as clk
+    from sc3.base.stream import Routine
+    m.Routine = Routine
+    clocks = {'system': clk.SystemClock, 'app': clk.AppClock}
+    plain_addr = server.addr
+    timeouts = cases = 0
+    for i in iter_cases(spec):
+        rng = case_rng(spec['seed'], 'C17', 'rtsync', i)
+        prog, stats = c17_gen.gen_sync_program(rng)
+        if server.addr is not plain_addr:
+            server._addr = plain_addr
+            acc.count('server_addr_repaired_between_cases')
+        with main._main_lock:
+            server._set_client_id(0)
+            ledger.attach(server)
+            cap.reset()
+        runner = c17_exec.Runner(m, server, 'rt', cap, ledger, acc.count)
+        cases += 1
+        try:
+            finished = runner.run_sync(prog, clocks, wait=10.0)
+            if not finished:
+                # bounded wait: the reply never resumed the routine (starved
+                # host or broken receive path) - never a verdict by itself
+                timeouts += 1
+                acc.count('sync_histories_timed_out')
+                continue
+            packets = cap.packets()
+            acc.count('packets_decoded', len(packets))
+            c17_exec.Judge(runner, packets, 'rt', acc.count).run()
+        except c17_exec.Violation as v:
+            w = dict(v.witness)
+            w.update({'case': i, 'kind': 'rtsync', 'program': prog})
+            acc.violation(v.key, w)
+        except osc.OscError as e:
+            acc.violation('C17/wire/packet-is-not-valid-osc',
+                          {'case': i, 'why': str(e), 'program': prog})
+        nsync = len(prog['sections']) - 1
+        nops = sum(len(x) for x in prog['sections'])
+        acc.case(h64(repr(prog)), nontrivial=nsync >= 1 and nops >= 2)
+        acc.count('histories')
+        acc.count('sync_histories')
+        acc.count(f'sync_histories_with_{nsync}_syncs')
+        if prog['raise_at'] is not None:
+            acc.count('sync_histories_raising')
+        if acc.want_sample() and nsync >= 1 and 2 <= nops <= 6:
+            acc.sample({'case': i, 'kind': 'rtsync', 'program': prog})
+    acc.count('sync_replies_fed_back', cap.sync_replies)
+    if cases and timeouts > max(3, cases // 20):
+        acc.mark_inconclusive(f'{timeouts}/{cases} sync routines never resumed')
